@@ -39,6 +39,23 @@ def gen_run(tier, fault=False):
     return strat()
 
 
+def gen_status(tier):
+    """Runs for the status check: the three documented tolerances are chosen independently of each other
+    (each may also be left at its default) and the iteration budget is long enough for some of the runs
+    to stop on the criteria and for others to run out of iterations."""
+    tol = st.sampled_from([None, 0.3, 1e-2, 1e-4, 1e-7])
+
+    @st.composite
+    def strat(draw):
+        case = draw(gen_run(tier))
+        if draw(st.booleans()):
+            case["opt"]["tols"] = {"residual": draw(tol), "increment": draw(tol), "distance": draw(tol)}
+            case["opt"]["num_iter"] = draw(st.integers(3, 60 if tier == "quick" else 150))
+        return case
+
+    return strat()
+
+
 def _thin_zero_flux(shape, a, b):
     """(thin, zero_flux): at most one axis with extent >= 2, and the unique mass-conserving flux
     of the pair vanishes exactly on some face."""
@@ -234,17 +251,21 @@ def _criteria_met(o, hist):
     """Re-evaluate the documented stopping inequalities on the last recorded iterate."""
     big = np.finfo(float).max
     tol = o["tol"] if o.get("tol") is not None else big
+    tols = {"residual": tol, "increment": tol, "distance": tol}
+    for name, val in (o.get("tols") or {}).items():
+        tols[name] = val if val is not None else big
+    t_res, t_inc, t_dist = tols["residual"], tols["increment"], tols["distance"]
     with np.errstate(all="ignore"):
         if o["method"] == "newton":
             r, f, dd = hist["residual"], hist["flux_increment"], hist["distance_increment"]
             if len(r) < 3:
                 return False
-            return bool(r[-1] < tol * r[0] and f[-1] < tol * f[0] and dd[-1] < tol)
+            return bool(r[-1] < t_res * r[0] and f[-1] < t_inc * f[0] and dd[-1] < t_dist)
         r, f, dd, dist = (hist["mass_conservation_residual"], hist["aux_force_increment"],
                           hist["distance_increment"], hist["distance"])
         if len(r) < 3:
             return False
-        return bool(f[-1] < tol * f[0] and dd[-1] / dist[-1] < tol and r[-1] < tol)
+        return bool(f[-1] < t_inc * f[0] and dd[-1] / dist[-1] < t_dist and r[-1] < t_res)
 
 
 def check_status_honest(case):
@@ -265,7 +286,7 @@ def check_status_honest(case):
     # return_status form reports the same flag
     return Outcome(_nontrivial(case, info), _key(case),
                    _labels(case, ("converged" if conv else "not-converged",
-                                  "tol-binding" if o.get("tol") else "tol-default")))
+                                  "tol-split" if o.get("tols") else "tol-binding" if o.get("tol") else "tol-default")))
 
 
 def check_fault_flagged(case):
@@ -412,7 +433,7 @@ PROP = Prop(
         Sub("mass_balance", check_mass_balance, gen=lambda t: gen_run(t), n=_N, shards=_SH),
         Sub("distance_is_cost_of_flux", check_distance_is_cost, gen=lambda t: gen_run(t), n=_N, shards=_SH),
         Sub("aux_outputs", check_aux_outputs, gen=lambda t: gen_run(t), n=_N, shards=_SH),
-        Sub("status_honest", check_status_honest, gen=lambda t: gen_run(t), n=_N, shards=_SH),
+        Sub("status_honest", check_status_honest, gen=gen_status, n=_N, shards=_SH),
         Sub("fault_flagged", check_fault_flagged, gen=lambda t: gen_run(t, fault=True),
             n={"quick": 240, "thorough": 5000}, shards={"quick": 6, "thorough": 16}),
         Sub("option_matrix", check_combo, enum=enum_combos, exhaustive=True,
